@@ -609,6 +609,24 @@ func (sc *serverConn) handleStreams() {
 
 	defer releaseHandled()
 
+	// Responses that were still being sent, or had just been handed back, when
+	// the loop stops are never going to be finished. A body produced with
+	// SetBodyStreamWriter runs on a goroutine of fasthttp's that only ends when
+	// the body has been read to its end or closed, so every body still held
+	// here is closed; a handler that is still running keeps its own (see
+	// dispatchHandler). Deferred first, so that it runs after handlerStop has
+	// been closed: a report that arrives later still is cleaned up by the
+	// handler that sent it.
+	defer func() {
+		for _, strm := range strms {
+			if !strm.handlerRunning {
+				sc.closeBodyStream(strm)
+			}
+		}
+
+		sc.dropHandlerReports()
+	}()
+
 	// Handlers that are still running when the loop stops have nowhere to
 	// report back to, and would otherwise park on handlerDone for good.
 	defer close(sc.handlerStop)
@@ -1603,6 +1621,21 @@ func (sc *serverConn) verifyState(strm *Stream, fr *FrameHeader) error {
 	return nil
 }
 
+// dropHandlerReports empties handlerDone once the stream loop has stopped and
+// closes the response bodies nobody is going to send.
+func (sc *serverConn) dropHandlerReports() {
+	for {
+		select {
+		case strm := <-sc.handlerDone:
+			if strm.ctx != nil {
+				_ = strm.ctx.Response.CloseBodyStream()
+			}
+		default:
+			return
+		}
+	}
+}
+
 // dispatchHandler hands a finished request to the handler on a goroutine of
 // its own and returns straight away, so the stream loop stays free to serve
 // the other streams on the connection while it runs.
@@ -1631,7 +1664,18 @@ func (sc *serverConn) dispatchHandler(strm *Stream) {
 			verifPoint("srv.handler.done")
 			select {
 			case sc.handlerDone <- strm:
+				// The stream loop may have stopped in the meantime, after
+				// emptying the queue on its way out: what is in it now, this
+				// report included, has no reader left.
+				select {
+				case <-sc.handlerStop:
+					sc.dropHandlerReports()
+				default:
+				}
 			case <-sc.handlerStop:
+				// The connection has gone and nobody will send this response:
+				// a body stream the handler left on it is closed here.
+				_ = ctx.Response.CloseBodyStream()
 			}
 		}()
 
